@@ -373,6 +373,111 @@ FAMILIES[("chunker", "Reader")] = ("stream_witness", lambda: fam_stream_ops(4))
 FAMILIES[("chunker", "Writer")] = ("stream_witness", lambda: fam_stream_ops(4))
 
 
+
+# ---------------------------------------------------------------- RFC 7233 oracle (written from C03) for native replays
+import re as _re
+
+
+def rfc_resolve(value, L):
+    """Range header value (str) -> None if not a grammatical bytes range set, else list of (start, end_exclusive)."""
+    if not value.startswith("bytes="):
+        return None
+    out = []
+    for spec in value[len("bytes="):].split(","):
+        spec = spec.lstrip(" \t")
+        m = _re.fullmatch(r"(\d*)-(\d*)", spec)
+        if not m or (m.group(1) == "" and m.group(2) == ""):
+            return None
+        a, b = m.group(1), m.group(2)
+        if (a and int(a) >= 2 ** 64) or (b and int(b) >= 2 ** 64):
+            return None      # unparseable numbers put the header outside what the implementation's grammar accepts
+        if a == "":
+            n = min(int(b), L)
+            if n > 0:
+                out.append((L - n, L))
+        elif b == "":
+            if int(a) < L:
+                out.append((int(a), L))
+        else:
+            if int(a) < L and int(a) <= int(b):
+                out.append((int(a), min(int(b), L - 1) + 1))
+    return out
+
+
+def oracle_range(pid, sc, ob):
+    hd = {}
+    for k, v in ob["headers"]:
+        hd.setdefault(k, []).append(v)
+    if ob["panic"] is not None:
+        return ("panic: " + ob["panic"]) if pid in ("C03", "C13") else None
+    rng = [v for k, v in sc.get("headers", []) if k == "range"]
+    if not rng or any(k in ("if-range", "if-match", "if-none-match", "if-modified-since", "if-unmodified-since") for k, _ in sc.get("headers", [])):
+        return None
+    L = sc["len"]
+    want = rfc_resolve(rng[0], L)
+    st = ob["status"]
+    cr = hd.get("content-range", [None])[0]
+    if pid == "C13":
+        return None if st in (200, 206, 304, 400, 405, 412, 413, 416) else "status %d" % st
+    if pid == "C03":
+        if want is None:
+            return None if st == 200 else "Range outside the grammar but status %d" % st
+        if len(want) == 0:
+            if st != 416 or cr != b"bytes */%d" % L:
+                return "no satisfiable range: expected 416 `bytes */%d`, got %d %r" % (L, st, cr)
+        elif len(want) == 1:
+            a, e = want[0]
+            exp = b"bytes %d-%d/%d" % (a, e - 1, L)
+            if st != 206 or cr != exp:
+                return "expected 206 `%s`, got %d %r" % (exp.decode(), st, cr)
+        else:
+            tot = sum(e - a for a, e in want)
+            if st == 206:
+                if tot >= L:
+                    return "multipart although the ranges alone total >= L"
+            elif st == 200:
+                if tot + 80 * len(want) < L / 2:
+                    return "200 although ranges + 80 bytes each are under half the entity"
+            else:
+                return "several satisfiable ranges but status %d" % st
+        return None
+    if pid == "C02":
+        if st == 206 and cr is not None:
+            m = _re.fullmatch(rb"bytes (\d+)-(\d+)/(\d+)", cr)
+            if not m:
+                return "malformed Content-Range %r" % cr
+            a, b, l2 = int(m.group(1)), int(m.group(2)), int(m.group(3))
+            if not (a <= b < l2 and l2 == L):
+                return "Content-Range %r violates a <= b < L = %d" % (cr, L)
+        return None
+    return None
+
+
+def fam_range_headers():
+    out = []
+    k = 0
+    big = [2 ** 32, 2 ** 63, 2 ** 64 - 2, 2 ** 64 - 1]
+    for L in (0, 1, 10, 1000):
+        pos = sorted(set([0, 1, max(L - 1, 0), L, L + 1] + big))
+        specs = []
+        for a in pos:
+            specs.append("%d-" % a)
+            specs.append("-%d" % a)
+            for b in pos:
+                specs.append("%d-%d" % (a, b))
+        for sp in specs:
+            k += 1
+            out.append({"id": "rg%d" % k, "method": "GET", "headers": [("range", "bytes=" + sp)], "len": L, "etag": '"x"', "lm": "1000000000.0", "scripts": ["N"], "extra_polls": 0})
+        for s1 in ("0-0", "-1", "5-", "%d-" % L, "-0"):
+            for s2 in ("1-1", "-2", "%d-%d" % (L, L + 5), "-%d" % (L + 1)):
+                k += 1
+                out.append({"id": "rg%d" % k, "method": "GET", "headers": [("range", "bytes=%s, %s" % (s1, s2))], "len": L, "etag": '"x"', "lm": "1000000000.0", "scripts": ["N", "N"], "extra_polls": 0})
+    return out
+
+
+FAMILIES[("range", "parse")] = ("serve_witness", fam_range_headers)
+
+
 def try_upgrade(pid, ob, repo=None):
     """Look for a concrete failing input for the failed obligation `ob` of property `pid` on the real code."""
     fam = None
@@ -389,7 +494,7 @@ def try_upgrade(pid, ob, repo=None):
     mk = stream_line if is_stream else scenario_line
     lines = run_native(test, [mk(x) for x in scs], repo)
     for sc, ln in zip(scs, lines):
-        why = oracle_stream(pid, sc, parse_stream_obs(ln)) if is_stream else oracle_serve(pid, sc, parse_obs(ln))
+        why = oracle_stream(pid, sc, parse_stream_obs(ln)) if is_stream else (oracle_serve(pid, sc, parse_obs(ln)) or oracle_range(pid, sc, parse_obs(ln)))
         if why:
             ob["native_replay"] = {"status": "reproduced on the real code", "reproduced": True, "test": test, "scenario": sc, "scenario_line": mk(sc),
                                    "observation": ln, "violates": pid, "what": why, "searched": len(scs)}
@@ -411,7 +516,7 @@ def replay_file(path, repo=None):
     if nr["test"] == "stream_witness":
         why = oracle_stream(rec["property"], nr["scenario"], parse_stream_obs(ln))
     else:
-        why = oracle_serve(rec["property"], nr["scenario"], parse_obs(ln))
+        why = oracle_serve(rec["property"], nr["scenario"], parse_obs(ln)) or oracle_range(rec["property"], nr["scenario"], parse_obs(ln))
     print("scenario   :", nr["scenario_line"])
     print("observation:", ln)
     if why:
@@ -437,13 +542,13 @@ if __name__ == "__main__":
                         print(pid, why, stream_line(sc), "\n   ", ln)
         print(len(scs), "scenarios; oracle failures:", bad)
         sys.exit(0)
-    scs = {"mp": fam_multipart_faults, "sg": fam_single_faults}[fam]()
+    scs = {"mp": fam_multipart_faults, "sg": fam_single_faults, "rg": fam_range_headers}[fam]()
     lines = run_native("serve_witness", scs)
     bad = 0
     for sc, ln in zip(scs, lines):
         o = parse_obs(ln)
-        for pid in ("C01", "C07", "C12", "C20"):
-            why = oracle_serve(pid, sc, o)
+        for pid in ("C01", "C02", "C03", "C07", "C12", "C13", "C20"):
+            why = oracle_serve(pid, sc, o) or oracle_range(pid, sc, o)
             if why:
                 bad += 1
                 if bad < 15:
